@@ -547,7 +547,11 @@ def consumer_race_case(draw, d):
         return None
     held = sorted(d.consumers)
     free_cons = [c for c in gen.CONS if c not in d.consumers]
-    if held and draw(st.integers(0, 2)) > 0:
+    # the same request submitted twice (a client retry racing the original):
+    # the most common real-world shape of this race; mostly for a consumer
+    # that exists, with its current generation
+    double = draw(st.integers(0, 2)) == 2
+    if held and (double or draw(st.integers(0, 2)) > 0):
         c = draw(st.sampled_from(held))
         cur = d.consumers[c]['generation']
         gens = [cur, cur, cur + 1, cur - 1 if cur > 0 else None, None]
@@ -558,6 +562,8 @@ def consumer_race_case(draw, d):
         cur = None
         gens = [None, None, None, 0, 1]
     mode = draw(st.sampled_from(['same', 'same', 'mixed']))
+    if double:
+        mode = 'same'
     n = draw(st.sampled_from([2, 2, 3]))
     v = (1, draw(st.sampled_from([39, 39, 38, 38, 37, 34, 30, 28])))
     reqs = {}
@@ -590,9 +596,7 @@ def consumer_race_case(draw, d):
                 d, {rp: current_inv_body(d, rp)}, {c: {(rp, rc): a}}, vr,
                 gens={c: g})
         reqs[name]['carried_consumer'] = [c, g]
-    if draw(st.integers(0, 2)) == 2:
-        # the same request submitted twice (a client retry racing the
-        # original): the most common real-world shape of this race
+    if double:
         import copy
         reqs['B'] = copy.deepcopy(reqs['A'])
     return reqs
